@@ -290,7 +290,7 @@ func (g *Gen) doc(id V) V {
 		}
 	}
 	if g.P.Pads && g.chance(0.6) {
-		kv = append(kv, "p", APad([]int{0, 100, 4000, 4096, 4200, 5000, 70000}[g.r.Intn(7)]))
+		kv = append(kv, "p", APad([]int{16, 100, 4000, 4096, 4200, 5000, 70000}[g.r.Intn(7)]))
 	}
 	if g.chance(0.06) { // a top-level field whose *name* contains a dot (not a nested path)
 		kv = append(kv, g.pick([]string{"x.y", "app.version", "n.a"}), g.smallNum())
